@@ -129,7 +129,7 @@ struct StaticClass {
         sim::Env e = env_from_plan(p);
         size_t geps = Tr::gen_eps(p, cfg);
         bool scale = scale_slot(g) && std::is_integral_v<K> && (g.prop == "C08" || g.prop == "C09" || g.prop == "C10" || g.prop == "C18");
-        std::string sig = scale ? set_scale_recipe<K>(p, geps, cfg, work, Tr::allow_16m) : gen_keys_into<K>(p, n, geps, chunks_for(e, n), cfg, work);
+        std::string sig = scale ? set_scale_recipe<K>(p, geps, cfg, work, Tr::allow_16m, Tr::float_slopes) : gen_keys_into<K>(p, n, geps, chunks_for(e, n), cfg, work);
         p.set("motifs", sig);
         p.set("qseed", work.next() >> 1);
         if (!scale) p.set("qmax", large ? 1500 : 2000);
@@ -259,6 +259,7 @@ struct TraitsBase {
     static constexpr unsigned clauses = CL_RANGE | CL_FIRST_OCC | CL_LOWER_BOUND;
     static constexpr bool far_queries = true;
     static constexpr size_t max_n = 2000000;
+    static constexpr bool float_slopes = false;
     static constexpr bool allow_16m = false; ///< scale slots may use more than 2^24 keys (classes predicting in the slope type)
     static size_t gen_eps(PlanText &, Rng &) { return Eps_; }
     static std::string preds(const std::vector<K> &) { return ""; }
